@@ -38,7 +38,7 @@ from vloop import VirtualLoop, FakeTransport
 POLL = 0.0001
 HB = 0.05                      # heartbeat interval (both directions) of logged-in sessions, virtual seconds
 WALL_PER_FRAME = 1.0           # wall seconds one deserialize() call may take
-CASE_WALL = 4.0                # wall seconds after which a case is aborted (the loop is blocked)
+CASE_WALL = 3.0                # wall seconds after which a case is aborted (the loop is blocked)
 MAX_DESER = 400000
 KINDS = [('soup-client', 'pre'), ('soup-client', 'post'), ('soup-server', 'pre'), ('soup-server', 'post'), ('fix', 'pre'), ('fix', 'post')]
 PENDING_TRIAGE = False         # classes that show candidate defects of the unchanged library still being triaged (see hostile_gen)
@@ -348,6 +348,8 @@ async def _scenario(case, rec, res):
                 break
         res['follow_up'] = more
     # ---- verdict data
+    if s.is_closed():
+        await asyncio.sleep(30 * POLL)           # is_closed() turns true when the close starts: let it complete
     rec['on'] = False
     res['closed_before_final'] = bool(s.is_closed())
     res['paused'] = not tr.is_reading() and not tr.closes
@@ -400,13 +402,16 @@ def run_case(case):
                               if not t.get_name().startswith('U-') and not isinstance(t.exception(), ReaderHang)
                               and t.get_coro().__qualname__ != '_scenario']
     res['loop_exceptions'] = [str(c.get('message')) + (':' + err_name(c['exception']) if c.get('exception') else '') for c in loop.loop_exceptions]
+    signal.setitimer(signal.ITIMER_REAL, CASE_WALL)       # (a loop torn out of a blocked call may not wind down either)
     try:
-        if 'hang' in res:
-            loop.close()
-        else:
-            loop.shutdown()
+        loop.shutdown()
     except BaseException:  # noqa
-        pass
+        try:
+            loop.close()
+        except BaseException:  # noqa
+            pass
+    finally:
+        signal.setitimer(signal.ITIMER_REAL, 0)
     res.pop('session', None)
     res.pop('tr', None)
     return res
@@ -595,7 +600,7 @@ def build_case(rng, kind, phase, bad, style=None):
 
 def malformed_for(rng, kind, follow_len=120, pending=False):
     if kind == 'fix':
-        good = fix_fields('N', 7, 'n1')
+        good = fix_fields('N', 7, 'hostile')
         out = HG.fix_malformed(rng, good, FIX_VER, follow_len=follow_len, pending_triage=pending)
         out += fix_group_classes(rng, pending)
         out.append(HG.fix_garbage(rng))
@@ -608,7 +613,7 @@ def malformed_for(rng, kind, follow_len=120, pending=False):
 def fix_group_classes(rng, pending=False):
     """repeating-group count that does not match what follows (message type H7: groups A = 7001 x (7002, 7003), B = 7011 x (7012, 7013))"""
     out = []
-    head = fix_fields('H7', 9, 'n1')
+    head = fix_fields('H7', 9, 'hostile')
     hd = b''.join(str(t).encode() + b'=' + str(v).encode() + HG.SOH for t, v in head)
 
     def mk(cls, body, trailer=True):
@@ -726,6 +731,14 @@ def describe(case):
             'parts': [p['tok'] for p in case['parts']], 'cuts': case['cuts'][:8]}
 
 
+def family_of(cls):
+    """cases that block the loop for seconds are not repeated: one family = the classes that exercise the same mechanism"""
+    if cls.startswith('fix:group-count:'):
+        n = cls.split(':')[2]
+        return 'fix:group-count:large' if n.isdigit() and int(n) >= 1000 else 'fix:group-count:' + n
+    return cls
+
+
 def run_hostile(ctx):
     quick = ctx.tier == 'quick'
     drv = common.Driver('drv_C03')
@@ -736,14 +749,14 @@ def run_hostile(ctx):
     t_start = time.time()
 
     def do(case, tag):
-        fam = case['cls'].rsplit(':', 1)[0] if case['cls'].startswith('fix:group-count') else case['cls']
+        fam = family_of(case['cls'])
         if fam in blocked:
             ctx.count('hostile:skipped-after-block:' + fam)
             return
         res = run_case(case)
         ctx.case(describe(case), nontrivial=True, sample_every=211)
         ctx.count(f'hostile:{case["sess"]}:{case["phase"]}')
-        ctx.count('hostile-class:' + case['cls'].split(':PENDING')[0].rsplit(':', 1)[0] if case['cls'].count(':') > 1 else 'hostile-class:' + case['cls'])
+        ctx.count('hostile-class:' + ':'.join(case['cls'].split(':')[:3 if case['cls'].startswith(('fix:group-count:', 'soup:big:')) else 2]))
         ctx.count('hostile-style:' + str(case.get('style', tag)))
         ctx.count('hostile-outcome:' + ('hang' if 'hang' in res else 'setup-failed' if 'raised' in res else
                                          'closed' if res.get('closed_before_final') else 'open-delivering' if res.get('first_probe_delivered') else 'open'))
